@@ -187,8 +187,9 @@ def regenerate(ctx):
   return problems
 
 
-def build_coq(ctx, timeout=1500):
-  """Full .vo build of the development (incremental through make). Returns
+def build_coq(ctx, targets=None, timeout=1500):
+  """Full .vo build (incremental through make) of the given targets and
+  everything they depend on (default: the whole development). Returns
   (ok, log, failing_file)."""
   lock = open(os.path.join(COQ, ".build.lock"), "w")
   fcntl.flock(lock, fcntl.LOCK_EX)
@@ -196,7 +197,7 @@ def build_coq(ctx, timeout=1500):
     rc, out = run(["sh", os.path.join(COQ, "configure.sh")], 120)
     if rc != 0:
       return False, out, "configure.sh"
-    rc, out = run(["make", "-C", COQ, "-j16", "-k"], timeout)
+    rc, out = run(["make", "-C", COQ, "-j16", "-k"] + list(targets or []), timeout)
     failing = None
     if rc != 0:
       m = re.findall(r'File "\./([^"]+)", line', out)
@@ -378,7 +379,8 @@ def run_property(mod, ctx, replay_path=None):
 
   # 1. translators + build
   gen_problems = regenerate(ctx) if getattr(mod, "USES_GEN", False) else []
-  ok_build, build_log, failing = build_coq(ctx)
+  ok_build, build_log, failing = build_coq(
+      ctx, targets=["Props/%s.vo" % pid, "Harness/%s.vo" % mod.HMODULE])
   forb = scan_forbidden()
   ok_props, names, assum, props_log = (False, [], {}, "")
   if ok_build or True:
